@@ -30,6 +30,19 @@ def _findings(prop_rules, repo):
 
 
 def _apply(variant, dst):
+    import ast
+    if 'pkg_fn' in variant:
+        pkg = os.path.join(dst, 'bitstring')
+        changed = False
+        for fn in sorted(os.listdir(pkg)):
+            if fn.endswith('.py') and fn != 'luts.py':
+                src = open(os.path.join(pkg, fn)).read()
+                new = variant['pkg_fn'](fn, src)
+                if new is not None and new != src:
+                    ast.parse(new)
+                    open(os.path.join(pkg, fn), 'w').write(new)
+                    changed = True
+        return changed
     path = os.path.join(dst, 'bitstring', variant['file'])
     src = open(path).read()
     if 'fn' in variant:
